@@ -384,7 +384,8 @@ def known_match(pid, what, detail, kf):
 
 
 def conclude_diff(pid, tier, seed, t0, proof, results, check_impl, features, strip_model_prefixes=(),
-                  model_flags=None, what="", extra_cov=None, level="proof", check_pair=None, extra_violations=None):
+                  model_flags=None, what="", extra_cov=None, level="proof", check_pair=None, extra_violations=None,
+                  diff_to_failure=None, extra_violations_inst=None):
     """Common verdict logic for model-vs-implementation line comparisons.
     results: list of dict(k, inst, hstatus, dstatus, impl, model)."""
     kf = load_known_findings()
@@ -415,7 +416,18 @@ def conclude_diff(pid, tier, seed, t0, proof, results, check_impl, features, str
                 diffs.append((r, "model flag %s, expected %s" % (got[0], flag)))
         fd = first_diff(r["impl"], model)
         if fd:
-            diffs.append((r, "line %d: impl=[%s] model=[%s]" % fd))
+            # a difference on an observation whose model value is PROVED to be the documented value is a concrete
+            # failing input of the property, not only a broken correspondence
+            conc = diff_to_failure(r["inst"], r["impl"], model) if diff_to_failure else []
+            if conc:
+                for (w, detail) in conc[:3]:
+                    e = known_match(pid, w, detail, kf)
+                    if e:
+                        known.append((e, r, detail))
+                    else:
+                        violations.append((w, r, detail))
+            else:
+                diffs.append((r, "line %d: impl=[%s] model=[%s]" % fd))
         found = check_pair(r["inst"], r["impl"], r["model"]) if check_pair else check_impl(r["inst"], r["impl"])
         for (w, detail) in found:
             e = known_match(pid, w, detail, kf)
@@ -425,6 +437,12 @@ def conclude_diff(pid, tier, seed, t0, proof, results, check_impl, features, str
                 violations.append((w, r, detail))
         if len(samples) < 2 and len(r["impl"]) > 3:
             samples.append({"instance": r["inst"], "observations_head": r["impl"][:6]})
+    for (w, detail, inst_) in (extra_violations_inst or []):
+        e = known_match(pid, w, detail, kf)
+        if e:
+            known.append((e, {"inst": inst_}, detail))
+        else:
+            violations.append((w, {"inst": inst_}, detail))
     for (w, detail) in (extra_violations or []):
         e = known_match(pid, w, detail, kf)
         if e:
